@@ -36,6 +36,9 @@ from vlib import Ctx, run_tlc, build_harness, run_bin, parse_jsonl, SPEC
 D = os.path.join(SPEC, "routing")
 DEVS = ["LastRoute", "LastHost", "NextHostOnMiss", "NoDefaultAfterHostMatch", "MatchWithQuery", "HostEquality",
         "HostIgnoresPort", "WsUsesHttpRoutes", "HostCaseFolded", "PathCaseFolded", "EmptyHostIsAbsent", "NoSavedTextPos"]
+# deviations whose refuting input lies outside the property's quantifier (an empty Host value is not among
+# "absent, exact, wildcard-matching, with port, non-matching"): shown on the real code, reported as drift only
+DEVS_OUTSIDE_QUANTIFIER = {"EmptyHostIsAbsent"}
 WITNESSES = ["NoFallThroughHit", "NoShadowing", "NoSecondHostSkipped", "NoQueryMatters"]
 ACTIONS = ["HostAbsent", "HostStep", "RouteStep", "DefaultStep"]
 BATCH = 400          # apps per harness process (every App::run leaves its pool's recovery thread behind)
@@ -49,7 +52,8 @@ def _match_text(path):
 
 def _replay_batches(ctx, binpath, header, apps, variants, workers):
     """Runs the harness over `apps` (decoded TLC lines) in batches; returns the merged summary."""
-    tot = {"apps": 0, "requests": 0, "evaluations": 0, "mismatches": 0, "tool_errors": 0, "unstopped": 0,
+    tot = {"apps": 0, "requests": 0, "evaluations": 0, "mismatches": 0, "tool_errors": 0, "unstopped": 0, "drifts": 0,
+           "starts_without_monitor_event": 0, "upgrade_on_kept_connection_closed": 0, "first_drift": [],
            "transport_retries": 0, "start_failures": 0, "refused_degenerate": 0, "ws_upgrades_on_kept_connection": 0,
            "hangs": 0, "aborted_after_hangs": False, "first": [], "samples": []}
     for i in range(0, len(apps), BATCH):
@@ -63,8 +67,10 @@ def _replay_batches(ctx, binpath, header, apps, variants, workers):
         if s["apps"] + s["tool_errors"] < len(chunk) and not s["aborted_after_hangs"]:
             raise vlib.ToolError("harness ran %d of %d apps" % (s["apps"], len(chunk)))
         for k in ("apps", "requests", "evaluations", "mismatches", "tool_errors", "unstopped", "transport_retries",
-                  "start_failures", "refused_degenerate", "ws_upgrades_on_kept_connection", "hangs"):
+                  "start_failures", "refused_degenerate", "ws_upgrades_on_kept_connection", "hangs", "drifts",
+                  "starts_without_monitor_event", "upgrade_on_kept_connection_closed"):
             tot[k] += s[k]
+        tot["first_drift"] += s["first_drift"]
         if s["aborted_after_hangs"]:
             # requests that never complete are a finding of their own (reported by the caller): stop sending more
             tot["aborted_after_hangs"] = True
@@ -148,11 +154,19 @@ def run(tier, replay):
                 rep.append((d, c, sm[0]))
             for d, c, sm in rep:
                 ctx.cov["evaluations"] += sm["evaluations"]
+                outside = d in DEVS_OUTSIDE_QUANTIFIER
+                if not want_all and sm["drifts"]:
+                    _report_drifts(ctx, label, sm, {"reqs": [c["req"]]})
+                if want_all and not (sm["mismatches"] + sm["drifts"]) and outside:
+                    ctx.drift("inputs outside C04's quantifier: deviation %s" % d,
+                              "%s runtime behaves as deviation %s predicts: %s" % (label, d, json.dumps(c)[:500]),
+                              {"kind": "routing-deviation", "runtime": label, "dev": d, "case": c})
+                    continue
                 if not want_all and sm["mismatches"]:
                     ctx.violation("%s runtime does not answer the case refuting Dev={%s} as Route/WsRoute says: %s" % (
                         label, d, json.dumps(sm["first"][0])[:500]),
                         {"kind": "routing-vectors", "runtime": label, "reqs": [c["req"]], "first": sm["first"]})
-                if want_all and not sm["mismatches"]:
+                if want_all and not (sm["mismatches"] + sm["drifts"]):
                     # the real code behaves like the deviation: AlgoCorrect's counterexample is a real defect
                     ctx.violation("%s runtime behaves as deviation %s predicts: %s" % (label, d, json.dumps(c)[:500]),
                                   {"kind": "routing-deviation", "runtime": label, "dev": d, "case": c})
@@ -206,7 +220,13 @@ def run(tier, replay):
                      real_requests=s["evaluations"], mismatches=s["mismatches"], tool_errors=s["tool_errors"],
                      unstopped_apps=s["unstopped"], transport_retries=s["transport_retries"],
                      websocket_upgrades_on_a_kept_alive_connection=s["ws_upgrades_on_kept_connection"],
-                     empty_target_refused_with_400=s["refused_degenerate"], classes=classes)
+                     empty_target_refused_with_400=s["refused_degenerate"], classes=classes,
+                     mismatches_outside_the_quantifier=s["drifts"], apps_started_without_monitor_event=s["starts_without_monitor_event"])
+        _report_drifts(ctx, label, s, header)
+        if s["upgrade_on_kept_connection_closed"]:
+            ctx.drift("connection reuse (not part of C04)",
+                      "%s runtime: %d WebSocket upgrade(s) sent on a connection that had carried ordinary requests got no byte, "
+                      "while the same upgrade on a fresh connection reached its handler" % (label, s["upgrade_on_kept_connection_closed"]), None)
         if s["aborted_after_hangs"]:
             ctx.violation("%s runtime: %d request(s) were never answered (8 s, retried once); the replay was cut short; first mismatches: %s" % (
                 label, s["hangs"], json.dumps(s["first"][:2])[:600]),
@@ -265,11 +285,26 @@ def run(tier, replay):
         rej = rej[-1]["rejected"] if rej else []
         if not rej or t.violation != "postcondition":
             raise vlib.ToolError("Trace_Routing failed without a rejected record: %s %s\n%s" % (t.violation, t.violated_name, t.out[-1500:]))
+        if any(x["line"] == 0 for x in rej):
+            raise vlib.ToolError("Trace_Routing did not consume the whole log\n%s" % t.out[-1500:])
         for x in rej:
-            x["runtime"] = next(lbl for (hi_, lbl) in bounds if x["line"] <= hi_)
+            x["runtime"] = next((lbl for (hi_, lbl) in bounds if x["line"] <= hi_), "?")
         apps_of = _apps_for(lines, [x["line"] for x in rej])
-        ctx.violation("real app chose another handler than the model for %d logged request(s); first: %s" % (
-            len(rej), json.dumps(rej[:1])[:600]), {"kind": "routing-trace", "rejected": rej, "apps": apps_of})
+        inside, outside = [], {}
+        for x in rej:
+            why = _beyond_quantifier(x, apps_of.get(str(x["line"])))
+            if why:
+                outside.setdefault(why, []).append(x)
+            else:
+                inside.append(x)
+        for why, xs in sorted(outside.items()):
+            ctx.drift("inputs outside C04's quantifier: " + why,
+                      "%d logged request(s) answered by another handler than Route/WsRoute names; first: %s" % (len(xs), json.dumps(xs[0])[:500]),
+                      {"kind": "routing-trace", "rejected": xs[:10], "apps": {str(x["line"]): apps_of.get(str(x["line"])) for x in xs[:10]}})
+        if inside:
+            ctx.violation("real app chose another handler than the model for %d logged request(s); first: %s" % (
+                len(inside), json.dumps(inside[:1])[:600]),
+                {"kind": "routing-trace", "rejected": inside, "apps": {str(x["line"]): apps_of.get(str(x["line"])) for x in inside}})
     elif not stats:
         raise vlib.ToolError("Trace_Routing accepted the log but printed no statistics")
     else:
@@ -289,7 +324,7 @@ def run(tier, replay):
     if k is not None:
         bad["exp"][k][1] += 1
         s2 = _replay_batches(ctx, routing, header, [bad], "one", 1)
-        if s2["mismatches"] == 0:
+        if s2["mismatches"] + s2["drifts"] == 0:
             raise vlib.ToolError("self-test: a flipped expected handler was not reported by the harness")
     cut = []
     flipped = False
@@ -324,6 +359,64 @@ def run(tier, replay):
         "one-character symbols: pattern and text are compared character by character (GlobMatch = spec/glob Match)",
     ]
     return ctx.finish()
+
+
+def _report_drifts(ctx, label, s, header):
+    by = {}
+    for f in s["first_drift"]:
+        by.setdefault(f["beyond"], []).append(f)
+    for why, fs in sorted(by.items()):
+        ctx.drift("inputs outside C04's quantifier: " + why,
+                  "%s runtime: request answered by another handler than Route/WsRoute names (%d such mismatches in all classes); first: %s" % (
+                      label, s["drifts"], json.dumps({k: fs[0][k] for k in ("request", "variant", "expected", "got")})),
+                  {"kind": "routing-vectors", "runtime": label, "reqs": header["reqs"], "first": fs[:5]})
+
+
+def _fold(ops):
+    """The app a registration log builds (mirror of Trace_Routing!FoldApp, only used to CLASSIFY rejected records)."""
+    def sub(so):
+        return {"host": ["*"], "http": [o["p"] for o in so if o["op"] == "route"], "ws": [o["p"] for o in so if o["op"] == "ws"]}
+    app = {"hosts": [], "def": {"host": ["*"], "http": [], "ws": []}}
+    for o in ops:
+        if o["op"] == "route":
+            app["def"]["http"].append(o["p"])
+        elif o["op"] == "ws":
+            app["def"]["ws"].append(o["p"])
+        elif o["op"] == "wsall":
+            app["def"]["ws"].append(["*"])
+        elif o["op"] == "defsub":
+            app["def"] = sub(o["sub"])
+        else:
+            h = sub(o["sub"])
+            h["host"] = o["h"]
+            app["hosts"].append(h)
+    return app
+
+
+def _beyond_quantifier(x, apprec):
+    """Why a rejected log record lies outside the property's quantifier (apps 0..4 hosts x 0..6 routes; Host absent /
+    exact / wildcard-matching / with port / non-matching; paths with and without query; the listed pattern shapes),
+    or None when it lies inside."""
+    rec = x["rec"]
+    if rec["hostp"] and not rec["host"]:
+        return "Host header present with an empty value"
+    if not rec["target"] or rec["target"][0] == "?":
+        return "empty path"
+    if any(len(c) > 1 for c in rec["host"] + rec["target"]):
+        return "non-ASCII characters in Host or request target"
+    if not apprec:
+        return None
+    app = _fold(apprec["ops"])
+    subs = [app["def"]] + app["hosts"]
+    if len(app["hosts"]) > 4 or any(len(s["http"]) > 6 or len(s["ws"]) > 6 for s in subs):
+        return "app wider than 4 host sub-apps x 6 routes"
+    for h in (x.get("exp"), rec["got"]):
+        if h and h.get("hit") and 0 <= h["sub"] < len(subs) and h["idx"] >= 1:
+            s = subs[h["sub"]]
+            lst = s[rec["kind"]]
+            if (h["idx"] <= len(lst) and not lst[h["idx"] - 1]) or (h["sub"] != 0 and not s["host"]):
+                return "the empty pattern is involved"
+    return None
 
 
 def _apps_for(lines, idxs):
